@@ -59,30 +59,27 @@ Lemma undo1_del1 m (k : key) id cl :
 Proof.
   intros Hwf Hp Hcl. unfold undo1, del1. cbn [fst snd].
   assert (Hbc : bool_decide (k ∈ cl) = bool_decide (k ∈ closed m)) by (apply bool_decide_ext; exact Hcl).
-  rewrite Hbc. cbn [closed set_pending]. destruct m as [p o c hn hd nx]. cbn in *.
-  assert (Hg : forall p' o' c', get_obj (Mem p' o' c' hn hd nx) id = get_obj (Mem p o c hn hd nx) id)
-    by (intros; destruct id; reflexivity).
-  destruct (bool_decide (k ∈ c)) eqn:Hb.
-  - apply bool_decide_eq_true in Hb. cbn. rewrite Hg.
-    destruct (get_obj (Mem p o c hn hd nx) id) as [ob|] eqn:Ho.
-    + destruct (o_out ob) as [ok|] eqn:Hout; cbn; rewrite Hg, Ho, Hout; cbn.
-      * destruct (Hwf k id ob ok Hp Ho Hout) as [Hop _]. cbn in Hop.
-        f_equal; [apply insert_delete; exact Hp|apply insert_delete; exact Hop|].
-        apply set_eq. intros x. rewrite elem_of_union, elem_of_singleton, elem_of_difference, elem_of_singleton.
-        destruct (decide (x = k)) as [->|]; tauto.
-      * f_equal; [apply insert_delete; exact Hp|].
-        apply set_eq. intros x. rewrite elem_of_union, elem_of_singleton, elem_of_difference, elem_of_singleton.
-        destruct (decide (x = k)) as [->|]; tauto.
-    + cbn. rewrite Hg, Ho. f_equal; [apply insert_delete; exact Hp|].
-      apply set_eq. intros x. rewrite elem_of_union, elem_of_singleton, elem_of_difference, elem_of_singleton.
-      destruct (decide (x = k)) as [->|]; tauto.
-  - cbn. rewrite Hg.
-    destruct (get_obj (Mem p o c hn hd nx) id) as [ob|] eqn:Ho.
-    + destruct (o_out ob) as [ok|] eqn:Hout; cbn; rewrite Hg, Ho, Hout; cbn.
-      * destruct (Hwf k id ob ok Hp Ho Hout) as [Hop _]. cbn in Hop.
-        f_equal; [apply insert_delete; exact Hp|apply insert_delete; exact Hop].
-      * f_equal. apply insert_delete; exact Hp.
-    + cbn. rewrite Hg, Ho. f_equal. apply insert_delete; exact Hp.
+  rewrite Hbc. clear Hbc Hcl. pose proof (Hwf k id) as Hw. clear Hwf.
+  assert (Hset : forall c : gset key, k ∈ c -> {[k]} ∪ c ∖ {[k]} = c).
+  { intros c Hc. apply set_eq. intros x.
+    rewrite elem_of_union, elem_of_singleton, elem_of_difference, elem_of_singleton.
+    destruct (decide (x = k)) as [->|]; tauto. }
+  destruct m as [p o c hn hd nx]. cbn in Hp, Hw.
+  destruct id as [n|kk]; cbn in Hw |- *.
+  - destruct (bool_decide (k ∈ c)) eqn:Hb; cbn;
+      (destruct (hn !! n) as [ob|] eqn:Ho; cbn; [destruct (o_out ob) as [ok|] eqn:Hout; cbn|]);
+      rewrite ?Ho; cbn; rewrite ?Hout; cbn;
+      try (apply bool_decide_eq_true in Hb);
+      try (destruct (Hw ob ok Hp eq_refl Hout) as [Hop _]);
+      unfold set_opened, set_closed, set_pending; cbn;
+      f_equal; auto; apply insert_delete; assumption.
+  - destruct (bool_decide (k ∈ c)) eqn:Hb; cbn;
+      (destruct (hd !! kk) as [ob|] eqn:Ho; cbn; [destruct (o_out ob) as [ok|] eqn:Hout; cbn|]);
+      rewrite ?Ho; cbn; rewrite ?Hout; cbn;
+      try (apply bool_decide_eq_true in Hb);
+      try (destruct (Hw ob ok Hp eq_refl Hout) as [Hop _]);
+      unfold set_opened, set_closed, set_pending; cbn;
+      f_equal; auto; apply insert_delete; assumption.
 Qed.
 
 Lemma del1_wf m (k : key) id : wf_out m -> pending m !! k = Some id -> wf_out (del1 m k id).
@@ -103,7 +100,7 @@ Proof.
   2:{ destruct (bool_decide _); exact Hop. }
   destruct (Hwf k id ob ok Hp Hob Hout) as [Hopk Hinck].
   assert (ok' <> ok).
-  { intros ->. rewrite Hopk in Hop. simplify_eq. congruence. }
+  { intros ->. rewrite Hopk in Hop. simplify_eq; congruence. }
   destruct (bool_decide _); cbn; rewrite lookup_delete_ne by congruence; exact Hop.
 Qed.
 
@@ -117,7 +114,8 @@ Proof.
   - destruct (pending m !! k) as [id|] eqn:Hp.
     2:{ cbn [delete_mem] in H. rewrite Hp in H. eauto. }
     rewrite (delete_mem_cons_some _ _ _ _ Hp) in H.
-    destruct (delete_mem (del1 m k id) r) as [[m' rem'] cl'] eqn:E. simplify_eq.
+    destruct (delete_mem (del1 m k id) r) as [[m' rem'] cl'] eqn:E.
+    injection H as <- <- <-.
     rewrite delete_rollback_cons.
     assert (Hknot : k ∉ map fst rem').
     { intros Hin. apply (delete_mem_rem_pending _ _ _ _ _ E) in Hin. apply Hin.
@@ -172,4 +170,23 @@ Proof.
   split.
   - apply E1 in Hx as (Hc & Hle & Hall). destruct x as [xc xh]. cbn in *. subst xc. apply Hall. lia.
   - rewrite E2. rewrite bool_decide_eq_true_2 by exact Hx. reflexivity.
+Qed.
+
+(* decidable form of wf_out, for examples and tests *)
+Definition wf_outb (m : mem) : bool :=
+  bool_decide (map_Forall (fun (k : key) (id : oid) =>
+    match get_obj m id with
+    | Some o => match o_out o with
+                | Some ok => bool_decide (opened m !! ok = Some id) && bool_decide (o_inc o = k)
+                | None => true
+                end
+    | None => true
+    end = true) (pending m)).
+
+Lemma wf_outb_sound m : wf_outb m = true -> wf_out m.
+Proof.
+  unfold wf_outb. intros H. apply bool_decide_eq_true in H.
+  intros k id o ok Hp Hg Ho. specialize (H k id Hp). cbn in H. rewrite Hg, Ho in H.
+  apply andb_true_iff in H as [H1 H2].
+  apply bool_decide_eq_true in H1. apply bool_decide_eq_true in H2. tauto.
 Qed.
